@@ -17,8 +17,10 @@
           ;; the rest parameter takes whatever is left, possibly nothing
           (cons (cons (car (cdr params)) args)
                 env)
-          (cons (cons (car params) (car args))
-                (add-parameters (cdr params) (cdr args) env)))
+          ;; a later parameter shadows an earlier one of the same name, as in eval
+          (add-parameters (cdr params)
+                          (cdr args)
+                          (cons (cons (car params) (car args)) env)))
       env))
 
 (defun highlight-list-elem (elems n)
